@@ -1,7 +1,8 @@
 (* Extract/Extract_c25.v — extraction of the C25 navigation skeleton to OCaml. *)
 Require Extraction.
 Require Import ExtrOcamlBasic.
-From IronCalc Require Import Base.Prelude Xlsx.Skeleton.
+From IronCalc Require Import Base.Prelude Xlsx.Skeleton Xlsx.EscapeSafe.
 Extraction Language OCaml.
 Extraction "model_c25.ml"
-  Skeleton.load_skel Skeleton.load_workbook_skel Skeleton.load_rels_skel Skeleton.load_styles_skel.
+  Skeleton.load_skel Skeleton.load_workbook_skel Skeleton.load_rels_skel Skeleton.load_styles_skel
+  EscapeSafe.decode_cursor_x.
